@@ -637,11 +637,11 @@ NEAR_MISS_EDITS = ('list_tuple', 'arity_plus', 'arity_minus', 'key_rename', 'key
                    'tuple_nt', 'tuple_ss', 'tuple_sub')
 
 
-def near_miss(draw, desc):
+def near_miss(draw, desc, edits=None, allow_root=False):
     """exactly one local edit somewhere in the tree; returns (new desc, edit name or None)"""
     root, refs = _node_refs(_copy.deepcopy(desc))
     order = draw(st.permutations(list(range(len(refs)))))
-    edits = draw(st.permutations(list(NEAR_MISS_EDITS)))
+    edits = list(edits) if edits is not None else draw(st.permutations(list(NEAR_MISS_EDITS)))
     for e in edits:
         for j in order:
             c, i = refs[j]
@@ -685,7 +685,7 @@ def near_miss(draw, desc):
             if e == 'tuple_ss' and t == 'ss':
                 c[i] = ['tuple', n[2]]
                 return root[0], e
-            if e == 'tuple_sub' and t == 'tuple' and len(n[1]) == 2 and j != 0:
+            if e == 'tuple_sub' and t == 'tuple' and len(n[1]) == 2 and (j != 0 or allow_root):
                 c[i] = ['sub', 'TupleSub']
                 return root[0], e
             if e == 'nt_swap' and t == 'nt' and n[1] in ('NT2', 'NTSub'):
@@ -698,7 +698,7 @@ def near_miss(draw, desc):
             if e == 'meta_change' and t == 'cu':
                 n[2] = list(n[2]) + [9]
                 return root[0], e
-            if e == 'node_to_leaf' and t not in LEAF_TAGS and t != 'none' and j != 0:
+            if e == 'node_to_leaf' and t not in LEAF_TAGS and t != 'none' and (j != 0 or allow_root):
                 c[i] = ['L', 77]
                 return root[0], e
             if e == 'none_leaf' and t == 'none':
@@ -749,8 +749,68 @@ def nested_dict_descs(draw, depth=None):
     return mk(depth)
 
 
-PAIR_MODES = ('same', 'suffix', 'suffix', 'near_miss', 'near_miss', 'dict_variant', 'dict_variant',
-              'nested_dict_variant', 'nested_dict_variant', 'unrelated', 'suffix_variant')
+def _seed_node(draw, e, leaf):
+    """a small node on which the near-miss edit `e` is applicable"""
+    x, y = draw(leaf), draw(leaf)
+    if e in ('list_tuple', 'kind_swap', 'node_to_leaf'):
+        return [draw(st.sampled_from(['list', 'tuple'])), [x, y]]
+    if e in ('arity_plus', 'arity_minus'):
+        k = draw(st.sampled_from(['list', 'tuple', 'cg', 'ci', 'cq', 'cl']))
+        return [k, [x, y], None] if k == 'cg' else [k, [x, y]]
+    if e in ('key_rename', 'key_add', 'key_remove'):
+        k = draw(st.sampled_from(['dict', 'od', 'dd', 'cm', 'cp', 'dsn']))
+        if k in ('cm', 'cp', 'dsn'):
+            return [k, [['x', x], ['y', y]]]
+        items = [[['s', 'a'], x], [['s', 'b'], y]]
+        return ['dd', draw(_FACT), items, []] if k == 'dd' else [k, items, []]
+    if e == 'dict_to_cm':
+        return ['dict', [[['s', 'x'], x], [['s', 'y'], y]], []]
+    if e == 'nt_swap':
+        return ['nt', draw(st.sampled_from(['NT2', 'NTSub'])), [x, y]]
+    if e == 'meta_change':
+        k = draw(st.sampled_from(['cg', 'cn', 'dc', 'cu']))
+        if k == 'cg':
+            return ['cg', [x, y], 'm']
+        if k == 'cu':
+            return ['cu', [x, y], [1]]
+        return [k, x, y, 'm']
+    if e == 'none_leaf':
+        return draw(st.sampled_from([['none'], x]))
+    if e in ('tuple_nt', 'tuple_ss', 'tuple_sub'):
+        if e == 'tuple_nt' and draw(st.booleans()):
+            n = draw(st.integers(0, 2))
+            return ['nt', ['NT0', 'NT1', 'NT2'][n], [x, y][:n]]
+        if e == 'tuple_ss' and draw(st.booleans()):
+            return ['ss', 'terminal_size', [x, y]]
+        return ['tuple', [x, y]]
+    raise AssertionError(e)
+
+
+def targeted_near_miss(draw, max_leaves=8, leaf=None):
+    """(a, b, edit): a tree that is guaranteed to contain a node on which a chosen near-miss edit applies,
+    and the same tree with exactly that edit (every edit kind gets its share of the budget)"""
+    leaf = leaf if leaf is not None else _LEAF
+    e = draw(st.sampled_from(NEAR_MISS_EDITS))
+    seed = _seed_node(draw, e, leaf)
+    edited, done = near_miss(draw, seed, edits=(e,), allow_root=True)
+    sib = draw(tree_descs(max(2, max_leaves - 2), leaf=leaf, max_depth=3))
+    w = draw(st.sampled_from(['list', 'tuple', 'dict', 'od', 'cg', 'deque']))
+
+    def wrap(node):
+        node, other = _copy.deepcopy(node), _copy.deepcopy(sib)
+        if w in ('list', 'tuple'):
+            return [w, [other, node]]
+        if w == 'deque':
+            return ['deque', [node, other], 'none', []]
+        if w == 'cg':
+            return ['cg', [node, other], None]
+        return [w, [[['s', 'k1'], node], [['s', 'k0'], other]], []]
+
+    return wrap(seed), wrap(edited), (e if done else None)
+
+
+PAIR_MODES = ('same', 'suffix', 'suffix', 'near_miss', 'near_miss_targeted', 'near_miss_targeted', 'dict_variant',
+              'dict_variant', 'nested_dict_variant', 'nested_dict_variant', 'unrelated', 'suffix_variant')
 
 
 @st.composite
@@ -759,6 +819,11 @@ def pair_descs(draw, max_leaves=10, kinds=None, modes=PAIR_MODES, keys=None):
     mode = draw(st.sampled_from(list(modes)))
     sub = tree_descs(max(3, max_leaves // 3), kinds=kinds, keys=keys, max_depth=3, min_leaves=2)
     edit = None
+    if mode == 'near_miss_targeted':
+        a, b, edit = targeted_near_miss(draw, max_leaves)
+        if draw(st.booleans()):
+            a, b = b, a                 # the edit in either direction
+        return {'a': a, 'b': b, 'rel': 'near_miss', 'edit': edit}
     if mode.startswith('nested_dict'):
         a = draw(nested_dict_descs())
     else:
